@@ -207,3 +207,55 @@ Example C06_example_variant :
                            [[RGet 1 ex_ka]; [RIterAtomic 1]]))
   = [OGet 1 ex_ka (Some [1%N]) 2 (Some 2); OIter 1 ex_c1 1 1].
 Proof. vm_compute. reflexivity. Qed.
+
+(** *** The re-keying hand-off between a deletion and concurrent readers (ConcRekey.v:
+    nodedb.go deleteVersion - batch Set (v,0) then batch Delete (v,1), possibly with a flush in
+    between - against GetRoot / GetNode, whose probes fall back from (v,1) to (v,0); GetRoot
+    takes no lock).  For the code's write order under EVERY cut into physical batches and EVERY
+    placement of the reader's probes between them, a reader of the retained version v+1 (whose
+    root record still refers to (v,1)) gets the node - never an error, never another node; the
+    two seeded variants (reader probes swapped; writes swapped with a flush between them) have
+    schedules on which the reader reports that the retained version does not exist.  The harness
+    places a reader between any two of its storage reads while a deletion runs ([park]). *)
+From IAVL Require Import Store StoreFacts ConcRekey ConcRekeyFacts.
+
+Theorem C06_rekey_handoff_safe :
+  forall (d : list (Z * Z * entry)) (v : Z) (n : snode) (batches : list (list wop)) (sched : list nat),
+    msorted kcmp d ->
+    mfind kcmp (v, 1) d = Some (ENode n) ->
+    mfind kcmp (v + 1, 1) d = Some (ERef (v, 1)) ->
+    concat batches = rekey_ops v n ->
+    match run_reader d batches (read_version (v + 1)) sched with
+    | Done r => r = RNode (v, 1) n \/ r = RNode (v, 0) n
+    | SchedShort => (length sched < 5)%nat
+    | SchedBad => nondecb sched = false
+    end.
+Proof. exact rekey_handoff_no_wrong_answer. Qed.
+Print Assumptions C06_rekey_handoff_safe.
+
+Theorem C06_rekey_chain_safe :
+  forall (d : list (Z * Z * entry)) (v : Z) (n : snode) (batches : list (list wop)) (sched : list nat),
+    msorted kcmp d ->
+    mfind kcmp (v, 1) d = Some (ENode n) ->
+    mfind kcmp (v + 2, 1) d = Some (ERef (v, 1)) ->
+    concat batches = chain_ops v n ->
+    nondecb sched = true -> (5 <= length sched)%nat ->
+    run_reader d batches (read_version (v + 2)) sched = Done (RNode (v, 1) n) \/
+    run_reader d batches (read_version (v + 2)) sched = Done (RNode (v, 0) n).
+Proof. exact rekey_chain_safe. Qed.
+Print Assumptions C06_rekey_chain_safe.
+
+Theorem C06_swapped_probes_refuted :
+  exists sched : list nat,
+    nondecb sched = true /\
+    run_reader ex_disk (code_one_batch 1 ex_node) (read_version_swapped 2) sched = Done RErrNoVersion /\
+    run_reader ex_disk (code_flushed 1 ex_node) (read_version_swapped 2) sched = Done RErrNoVersion.
+Proof. exact swapped_probes_refuted. Qed.
+Print Assumptions C06_swapped_probes_refuted.
+
+Theorem C06_swapped_writes_refuted :
+  exists sched : list nat,
+    nondecb sched = true /\
+    run_reader ex_disk (swapped_flushed 1 ex_node) (read_version 2) sched = Done RErrNoVersion.
+Proof. exact swapped_writes_refuted. Qed.
+Print Assumptions C06_swapped_writes_refuted.
